@@ -1,5 +1,114 @@
-(** C19 — property theorems (statements only; proofs in [Proofs*.v]). *)
+(** C19 — property theorems (statements only; proofs in [Proofs*.v]).
+
+    [get_index], [index], [index_mut], [from_vec], [from_slice], [new], [iter], [eq], [write], [read]
+    are the model of the Rust code ([Model.v]); [valid], [offset], [product], [unflatten], [render],
+    [wraps], [elems], [wf] are plain arithmetic ([Spec.v]).  Every statement is for all ranks
+    (the shape is a list of any length, including the empty one). *)
 From Coq Require Import List NArith ZArith Bool.
-From RlibV Require Import C19.Model C19.Spec.
+From RlibV Require Import C19.Model C19.Spec C19.Corr.
+From RlibV Require Import C19.ProofsBasic C19.ProofsIndex C19.ProofsTensor C19.ProofsWrite C19.ProofsCorr.
 Import ListNotations.
 Local Open Scope N_scope.
+
+(** on a valid multi-index [get_index] is the row-major formula Σ idx[i]·Π_{j>i} dims[j], inside the storage *)
+Theorem c19_get_index_rowmajor : forall ds idx : list N, valid ds idx ->
+  get_index ds idx = Some (offset ds idx) /\ offset ds idx < product ds.
+Proof. exact get_index_rowmajor. Qed.
+
+(** distinct valid multi-indices address distinct elements *)
+Theorem c19_get_index_injective : forall ds idx1 idx2 : list N, valid ds idx1 -> valid ds idx2 ->
+  get_index ds idx1 = get_index ds idx2 -> idx1 = idx2.
+Proof. exact get_index_injective. Qed.
+
+(** every offset below Π dims is addressed by exactly one valid multi-index *)
+Theorem c19_get_index_surjective : forall (ds : list N) (k : N), k < product ds ->
+  exists idx, valid ds idx /\ get_index ds idx = Some k /\
+              forall idx', valid ds idx' -> get_index ds idx' = Some k -> idx' = idx.
+Proof. exact get_index_surjective. Qed.
+
+(** one coordinate at or beyond its extent: panic, whatever the other coordinates (and whatever the
+    flattened offset would have been), for get_index, Index and IndexMut *)
+Theorem c19_out_of_range_rejected : forall (A : Type) (t : tensor A) (idx : list N) (n : nat) (i d : N),
+  nth_error idx n = Some i -> nth_error (dims t) n = Some d -> d <= i ->
+  get_index (dims t) idx = None /\ index t idx = None /\ forall v, index_mut t idx v = None.
+Proof. exact @index_out_of_range. Qed.
+
+(** exactly the valid multi-indices are accepted *)
+Theorem c19_get_index_total : forall ds idx : list N,
+  get_index ds idx = if validb ds idx then Some (offset ds idx) else None.
+Proof. exact get_index_spec. Qed.
+
+(** no [usize] overflow inside get_index on a constructed tensor (whose Π dims = data.len() is
+    representable), for valid and invalid indices alike: the width-checked loop equals the unbounded one *)
+Theorem c19_get_index_no_overflow : forall (W : N) (ds idx : list N), positive ds -> product ds <= W ->
+  get_index_chk W ds idx = get_index ds idx.
+Proof. exact get_index_no_overflow. Qed.
+
+(** constructors: a zero extent or a length different from Π dims panics; otherwise the tensor holds
+    the given shape and the given elements unchanged *)
+Theorem c19_constructors_reject : forall (A : Type) (ds : list N) (l : list A) (v : A),
+  (In 0 ds -> from_vec ds l = None /\ from_slice ds l = None /\ new ds v = None) /\
+  (N.of_nat (length l) <> product ds -> from_vec ds l = None /\ from_slice ds l = None) /\
+  (~ In 0 ds -> N.of_nat (length l) = product ds ->
+     from_vec ds l = Some (mk ds l) /\ from_slice ds l = Some (mk ds l) /\ wf (mk ds l)) /\
+  (~ In 0 ds -> new ds v = Some (mk ds (repeat v (N.to_nat (product ds)))) /\
+                wf (mk ds (repeat v (N.to_nat (product ds))))).
+Proof. exact @constructors_reject. Qed.
+
+(** Index agrees with iteration order: t[idx] is the element of iter() at the row-major offset *)
+Theorem c19_index_iter : forall (A : Type) (t : tensor A) (idx : list N), wf t -> valid (dims t) idx ->
+  index t idx = nth_error (iter t) (N.to_nat (offset (dims t) idx)) /\ index t idx <> None.
+Proof. exact @index_valid. Qed.
+
+(** IndexMut then Index: the written element is read back, every other valid index is unchanged *)
+Theorem c19_set_get : forall (A : Type) (t : tensor A) (idx : list N) (v : A), wf t -> valid (dims t) idx ->
+  exists t', index_mut t idx v = Some t' /\ wf t' /\ dims t' = dims t /\
+    index t' idx = Some v /\
+    forall idx', valid (dims t) idx' -> idx' <> idx -> index t' idx' = index t idx'.
+Proof. exact @set_get. Qed.
+
+(** the odometer terminates and writes the elements in storage order, each once, with the separator
+    [sep_spec] after the m-th element: ' ' when no trailing dimension is complete, otherwise one
+    newline per complete trailing dimension ([wraps], characterised below) *)
+Theorem c19_write_order : forall (A : Type) (t : tensor A), wf t ->
+  write t = Some (render (dims t) (data t)) /\ elems (render (dims t) (data t)) = data t.
+Proof. exact @write_order. Qed.
+
+(** the Debug text is produced by the same odometer: D opening brackets, the elements in storage order
+    with "]"*c ", " "["*c after the m-th one (c = [wraps] = completed trailing dimensions), D closing brackets *)
+Theorem c19_debug_order : forall (A : Type) (t : tensor A), wf t ->
+  debug t = Some (debug_spec (dims t) (data t)).
+Proof. exact @debug_correct. Qed.
+
+(** [wraps ds m] = the largest c such that the product of the last c extents divides m *)
+Theorem c19_wraps_char : forall ds : list N, product ds <> 0 -> forall (m : N) (c : nat), (c <= length ds)%nat ->
+  ((c <= wraps ds m)%nat <-> (product (skipn (length ds - c) ds) | m)).
+Proof. exact wraps_char. Qed.
+
+(** one turn of the odometer on a valid index: either it was the last index, or the next index is the
+    successor in row-major order and the separator consists of D - pos - 1 = wraps newlines (' ' if 0) *)
+Theorem c19_odometer_step : forall ds idx : list N, valid ds idx ->
+  match rposition (fun p => negb (fst p + 1 =? snd p)) (combine idx ds) with
+  | None => offset ds idx + 1 = product ds
+  | Some pos =>
+      (pos < length ds)%nat /\ valid ds (bump idx pos) /\
+      offset ds (bump idx pos) = offset ds idx + 1 /\
+      offset ds idx + 1 < product ds /\
+      wraps ds (offset ds idx + 1) = (length ds - pos - 1)%nat
+  end.
+Proof. exact odometer_step. Qed.
+
+(** writing a tensor and reading the text back with the same shape gives the same tensor *)
+Theorem c19_write_read_roundtrip : forall (A : Type) (t : tensor A), wf t ->
+  exists out, write t = Some out /\ read (dims t) out = Some t.
+Proof. exact @write_read_roundtrip. Qed.
+
+(** tensors compare equal only when both shape and elements agree *)
+Theorem c19_eq_iff : forall (A : Type) (e : A -> A -> bool), (forall x y, e x y = true <-> x = y) ->
+  forall t u : tensor A, eq e t u = true <-> dims t = dims u /\ data t = data u.
+Proof. exact @eq_iff. Qed.
+
+(** the two per-case checks of the correspondence batches agree: what holds of the model on a case
+    holds of the row-major specification *)
+Theorem c19_model_check_spec_check : forall c : case, model_check c = spec_check c.
+Proof. exact model_check_spec_check. Qed.
